@@ -6,6 +6,12 @@
    whether its call has returned and with what, plus the entry count where the lock has one.
    A step whose thread is not in the right state (e.g. Unlock by a thread that is still waiting)
    is not issued and recorded as skipped.
+   A BATCH step (fifo map, cmap) places context switches INSIDE calls: the driver takes the map's
+   own lock, issues 2-3 calls of distinct threads one by one (each parks at the start of its first
+   map section), then lets go; the calls' map sections and mutex operations interleave for real and
+   one observation is taken at the next quiescent point.  The model side explores every
+   interleaving of the members' events (first events in issue order for the fifo map, whose map
+   lock is a FIFO mutex; in any order for cmap) and keeps the final states that match.
 
    [check_case] (a) evaluates the spec oracles (Spec.v) on the observations — verdict 2, or 3
    when the faithful model does not reproduce the failing history — and
@@ -33,7 +39,11 @@ Inductive sop :=
 | SClear                                (* cmap: Clear(), by the driver *)
 | SCancel (c : Z)                       (* client context c ends *)
 | SShutdown                             (* outer: Run's context ends *)
-| SGrace.                               (* outer: the driver waits for the grace timers *)
+| SGrace                                (* outer: the driver waits for the grace timers *)
+| SBatch (l : list sop).                (* fifo map / cmap: the driver holds the map's OWN lock, issues
+                                           these calls one by one (each parks on the map lock, in this
+                                           order), then lets go: the calls' map sections and mutex
+                                           operations interleave for real; one observation, at the end *)
 
 Record sobs := mkso {
   so_skip : bool;
@@ -91,6 +101,51 @@ Section Explore.
   Definition quiescents (s : St) : list St := explore 200 [s] [fp s] [].
 End Explore.
 
+(* Exploration with PENDING first events (a batch): besides the internal events, any pending
+   event (ordered = false) or only the oldest one (ordered = true: the map lock is a FIFO mutex)
+   may fire; a state is final when nothing is pending and no internal event is enabled. *)
+Section Pending.
+  Context {St Ev : Type}.
+  Variable step : St -> Ev -> option St.
+  Variable musts : St -> list Ev.
+  Variable fp : St -> list Z.
+  Variable ordered : bool.
+
+  Definition pst : Type := St * list (Z * Ev).
+
+  Fixpoint drop_idx (i : Z) (p : list (Z * Ev)) : list (Z * Ev) :=
+    match p with
+    | [] => []
+    | x :: p' => if Z.eqb (fst x) i then p' else x :: drop_idx i p'
+    end.
+
+  Definition pstep (s : pst) (e : Ev + Z) : option pst :=
+    match e with
+    | inl e0 => match step (fst s) e0 with Some s' => Some (s', snd s) | None => None end
+    | inr i =>
+        match (if ordered then match snd s with x :: _ => if Z.eqb (fst x) i then Some x else None | [] => None end
+               else find (fun x => Z.eqb (fst x) i) (snd s)) with
+        | Some x => match step (fst s) (snd x) with
+                    | Some s' => Some (s', drop_idx i (snd s))
+                    | None => None
+                    end
+        | None => None
+        end
+    end.
+
+  Definition pmusts (s : pst) : list (Ev + Z) :=
+    map inl (musts (fst s)) ++ map (fun x => inr (fst x)) (snd s).
+
+  Definition pfp (s : pst) : list Z := map fst (snd s) ++ (-7) :: fp (fst s).
+
+  Fixpoint number (i : Z) (l : list Ev) : list (Z * Ev) :=
+    match l with [] => [] | e :: l' => (i, e) :: number (i + 1) l' end.
+
+  Definition quiescents_pending (s : St) (evs : list Ev) : list St :=
+    flat_map (fun q : pst => match snd q with [] => [fst q] | _ => [] end)
+             (quiescents pstep pmusts (fun _ => []) pfp (s, number 0 evs)).
+End Pending.
+
 Definition zseq (n : Z) : list Z := map Z.of_nat (seq 0 (Z.to_nat n)).
 Definition bz (b : bool) : Z := if b then 1 else 0.
 Definition oz (o : option Z) : list Z := match o with Some z => [1; z] | None => [0] end.
@@ -128,12 +183,17 @@ Definition m_stat (s : mstate) (t : tid) : tstat :=
   | MAt k _ | MWait k _ => TWaitW k
   | MHold k _ => THoldW k
   end.
-Definition m_fp (n : Z) (s : mstate) : list Z :=
+Definition m_fp (n : Z) (keys : list key) (s : mstate) : list Z :=
   bz (mpanic s) :: Z.of_nat (next s) ::
   flat_map (fun t => match mpcs s t with
                      | MIdle => [0] | MAt k o => [1; k; Z.of_nat o] | MWait k o => [2; k; Z.of_nat o]
                      | MHold k o => [3; k; Z.of_nat o] | MRel o => [4; Z.of_nat o]
-                     end) (zseq n).
+                     end) (zseq n) ++
+  flat_map (fun o => bz (slot (objs s o)) :: lz (sendq (objs s o))) (seq 0 (next s)) ++
+  flat_map (fun k => match items s k with
+                     | Some it => [1; Z.of_nat (it_obj it); it_len it]
+                     | None => [0]
+                     end ++ lz (karr s k) ++ lz (kgrants s k)) keys.
 
 (* ---- cmap.Mutex ---- *)
 Definition c_api (s : cstate) (tainted : list key) (op : sop) : option (list cev) :=
@@ -179,6 +239,21 @@ Definition c_fp (n : Z) (keys : list key) (s : cstate) : list Z :=
                      | CInW k o => [5; k; Z.of_nat o] | CInR k o => [6; k; Z.of_nat o]
                      end) (zseq n).
 
+(* NOT modelled, hence excluded from batches: sync.RWMutex wakes the readers parked behind a writer
+   through a counting semaphore, and a reader that arrives after the next writer has announced
+   itself can take the token of a reader that was released but has not run yet (the two readers
+   swap places; exclusion is unaffected).  It needs a writer's Unlock and a fresh RLock of the same
+   key to overlap, so a cmap batch never contains both. *)
+Definition c_batch_ok (s : cstate) (l : list sop) : bool :=
+  negb (existsb (fun u => match u with
+                          | SUnlock t =>
+                              match cpcs s t with
+                              | CInW k _ => existsb (fun a => match a with SRLock _ k' _ => Z.eqb k k' | _ => false end) l
+                              | _ => false
+                              end
+                          | _ => false
+                          end) l).
+
 (* users of key k other than thread t, in the statuses observed before the step *)
 Fixpoint other_users (k : key) (t : Z) (i : Z) (st : list tstat) : bool :=
   match st with
@@ -204,6 +279,12 @@ Definition taints (keys : list key) (st : list tstat) (op : sop) : list key :=
       | None => []
       end
   | _ => []
+  end.
+
+Definition taints_op (keys : list key) (st : list tstat) (op : sop) : list key :=
+  match op with
+  | SBatch l => flat_map (taints keys st) l
+  | _ => taints keys st op
   end.
 
 (* ---- lock.Context ---- *)
@@ -331,16 +412,42 @@ Section Follow.
     let '(st, res, en) := proj s in
     eqb_stats st (so_st o) && eqb_ress res (so_res o) && Z.eqb en (so_entries o).
 
+  Variable ordered : bool.
+  Variable batch_ok : St -> list sop -> bool.   (* lock-specific restriction on batches *)
+
+  (* the first events of the member calls of a batch, all judged in the state before the batch
+     (distinct threads; a member that is not applicable voids the batch) *)
+  Fixpoint batch_events (s : St) (tainted : list key) (l : list sop) : option (list Ev) :=
+    match l with
+    | [] => Some []
+    | op :: l' =>
+        match op, api s tainted op, batch_events s tainted l' with
+        | SBatch _, _, _ => None
+        | _, Some [e], Some es => Some (e :: es)
+        | _, _, _ => None
+        end
+    end.
+
   (* one step from one candidate *)
   Definition follow1 (tainted : list key) (op : sop) (o : sobs) (s : St) : list St :=
-    match api s tainted op with
-    | None => if so_skip o && matches o s then [s] else []
-    | Some evs =>
-        if so_skip o then []
-        else match run step s evs with
-             | Some s1 => filter (matches o) (quiescents step musts opts fp s1)
-             | None => []
-             end
+    match op with
+    | SBatch l =>
+        match (if batch_ok s l then batch_events s tainted l else None) with
+        | None => if so_skip o && matches o s then [s] else []
+        | Some evs =>
+            if so_skip o then []
+            else filter (matches o) (quiescents_pending step musts fp ordered s evs)
+        end
+    | _ =>
+        match api s tainted op with
+        | None => if so_skip o && matches o s then [s] else []
+        | Some evs =>
+            if so_skip o then []
+            else match run step s evs with
+                 | Some s1 => filter (matches o) (quiescents step musts opts fp s1)
+                 | None => []
+                 end
+        end
     end.
 
   Fixpoint follow (cands : list St) (tainted : list key) (prev : list tstat)
@@ -348,7 +455,7 @@ Section Follow.
     match ops, obs with
     | [], [] => Some cands
     | op :: ops', o :: obs' =>
-        let tainted' := if so_skip o then tainted else taints keys prev op ++ tainted in
+        let tainted' := if so_skip o then tainted else taints_op keys prev op ++ tainted in
         let nxt := fst (dedupe fp (flat_map (follow1 tainted op o) cands) [] []) in
         match nxt with
         | [] => None
@@ -370,35 +477,36 @@ Definition model_agrees (c : case) : bool :=
       match l with
       | LFifo =>
           match follow fstep (fun _ => []) (fun _ => []) (f_fp n) (fun s _ op => f_api s op)
-                       (fun s => (map (f_stat s) ts, [], -1)) keys [finit] [] (idle_stats n) ops obs with
+                       (fun s => (map (f_stat s) ts, [], -1)) keys true (fun _ _ => true) [finit] [] (idle_stats n) ops obs with
           | Some (s :: _) => eqb_logs [farr s] arr && eqb_logs [fgrants s] gr
           | _ => false
           end
       | LFifoMap =>
-          match follow mstep (m_musts n) (fun _ => []) (m_fp n) (fun s _ op => m_api s op)
-                       (fun s => (map (m_stat s) ts, [], entry_count s keys)) keys [minit] []
+          match follow mstep (m_musts n) (fun _ => []) (m_fp n keys) (fun s _ op => m_api s op)
+                       (fun s => (map (m_stat s) ts, [], entry_count s keys)) keys true (fun _ _ => true) [minit] []
                        (idle_stats n) ops obs with
-          | Some (s :: _) => eqb_logs (map (karr s) keys) arr && eqb_logs (map (kgrants s) keys) gr
-                             && negb (mpanic s)
-          | _ => false
+          | Some cands => existsb (fun s => eqb_logs (map (karr s) keys) arr
+                                            && eqb_logs (map (kgrants s) keys) gr
+                                            && negb (mpanic s)) cands
+          | None => false
           end
       | LCMap =>
           match follow cstep (c_musts n) (fun _ => []) (c_fp n keys) c_api
-                       (fun s => (map (c_stat s) ts, [], item_count s keys)) keys [cinit] []
+                       (fun s => (map (c_stat s) ts, [], item_count s keys)) keys false c_batch_ok [cinit] []
                        (idle_stats n) ops obs with
           | Some (_ :: _) => true
           | _ => false
           end
       | LCtx =>
           match follow xstep (x_musts n) (fun _ => []) (x_fp n) (fun s _ op => x_api s op)
-                       (fun s => (map (x_stat s) ts, map (x_res s) ts, -1)) keys [xinit] []
+                       (fun s => (map (x_stat s) ts, map (x_res s) ts, -1)) keys true (fun _ _ => true) [xinit] []
                        (idle_stats n) ops obs with
           | Some (_ :: _) => true
           | _ => false
           end
       | LOuter =>
           match follow ostep (o_musts n) o_opts (o_fp n) (fun s _ op => o_api s op)
-                       (fun s => (map (o_stat s) ts, map (ores s) ts, -1)) keys [oinit 1] []
+                       (fun s => (map (o_stat s) ts, map (ores s) ts, -1)) keys true (fun _ _ => true) [oinit 1] []
                        (idle_stats n) ops obs with
           | Some (_ :: _) => true
           | _ => false
